@@ -24,8 +24,8 @@ from pathlib import Path
 VERIF = Path(__file__).resolve().parent.parent
 LEAN = VERIF / "lean"
 REPO = Path(os.environ.get("JINNS_REPO", "/repo"))
-EVIDENCE = VERIF / "evidence"
-REPLAY = VERIF / "replay"
+EVIDENCE = Path(os.environ.get("VERIF_EVIDENCE_DIR", VERIF / "evidence"))
+REPLAY = Path(os.environ.get("VERIF_REPLAY_DIR", VERIF / "replay"))
 CORPUS = VERIF / "corpus"
 ALLOWED_AXIOMS = {"propext", "Classical.choice", "Quot.sound"}
 FORBIDDEN = re.compile(
@@ -289,7 +289,7 @@ def load_known(prop: str) -> list[dict]:
 # the check
 # ----------------------------------------------------------------------------------------------
 def write_evidence(prop, tier, seed, coverage, assumptions, wall, violations):
-    EVIDENCE.mkdir(exist_ok=True)
+    EVIDENCE.mkdir(exist_ok=True, parents=True)
     ev = {
         "property_id": prop,
         "tier": tier,
@@ -304,7 +304,7 @@ def write_evidence(prop, tier, seed, coverage, assumptions, wall, violations):
 
 
 def write_replay(prop, seed, payload) -> Path:
-    REPLAY.mkdir(exist_ok=True)
+    REPLAY.mkdir(exist_ok=True, parents=True)
     path = REPLAY / f"{prop}_seed{seed}_{int(time.time())}_{os.getpid()}.json"
     path.write_text(json.dumps(payload, indent=1, sort_keys=True))
     return path
